@@ -40,7 +40,16 @@ func checkCallOrder(a *pubAnalysis, all []*sim.Pub) {
 			if pi.save.CallSeq < prev.save.CallSeq {
 				a.violate("C05", "accept-order-differs-from-call-order", "level %d: message %d was called after message %d yet saved before", p.Level, p.N, prev.pub.N)
 			}
-			if (pi.key-prev.key)&0x3fff != 1 {
+			// a restart with nothing pending on the level legitimately starts the sequence anew
+			fresh := false
+			if p.Gen != prev.pub.Gen && prev.del != nil {
+				for _, e := range a.ep.W.Trace {
+					if e.Kind == "adopt" && e.N == p.Gen && prev.del.RetSeq < e.Seq {
+						fresh = true
+					}
+				}
+			}
+			if (pi.key-prev.key)&0x3fff != 1 && !(fresh && pi.key&0x3fff == 0) {
 				a.violate("C17", "identifiers-not-consecutive", "level %d: message %d got %#x after %#x", p.Level, p.N, pi.key, prev.key)
 			}
 		}
@@ -132,7 +141,7 @@ func init() {
 			return 1500
 		},
 		ChunkSize:   50,
-		Rule:        "PRNG-drawn episodes in two modes: sequential (one publisher, exact call order) and concurrent (2-8 publisher goroutines on both levels racing the read routine and reconnects, random yield/sleep at the submit, connect and write hook points, race detector on). Oracles on the decoded wire per level: first appearances in acceptance (Save) order, resend region = pending set in ascending order before anything new, PUBREL in PUBREC order, DUP iff an earlier complete write in the same process. Non-trivial: >= 2 messages in flight at a reconnect or >= 2 goroutines publishing; distinct by mode, fault multiset, connections, messages.",
+		Rule:        "PRNG-drawn episodes in two modes: sequential (one publisher, exact call order) and concurrent (2-8 publisher goroutines on both levels racing the read routine and reconnects, random yield/sleep at the submit, connect and write hook points, race detector on); a quarter of the episodes end with 1-2 stops and AdoptSession on the same Persistence followed by new publishes, and 1 in 50 does so with the in-flight window across the 14-bit identifier wrap (after really completing 16,38x publishes). Oracles on the decoded wire per level: first appearances in acceptance (Save) order, resend region = pending set in ascending order before anything new, PUBREL in PUBREC order, DUP iff an earlier complete write in the same process. Non-trivial: >= 2 messages in flight at a reconnect or >= 2 goroutines publishing; distinct by mode, fault multiset, connections, messages.",
 		Assumptions: []string{"either DUP value is accepted after a partial earlier write and after a restart (documented)", "the order in which exchange channels close is not asserted: it cannot be observed soundly from outside", "see C01"},
 		Run: func(c *run.Ctx) {
 			conc := 1
@@ -140,6 +149,17 @@ func init() {
 				conc = 2 + c.Rng.Intn(7)
 			}
 			pp := pubParams{NPub: conc * (1 + c.Rng.Intn(10)), Levels: [][]int{{1}, {2}, {1, 2}}[c.Rng.Intn(3)], Conc: conc, Budget: c.Rng.Intn(7), Yield: true, SettleP: c.Rng.Float64() * 0.5, BigP: 0.02}
+			if c.Rng.Intn(4) == 0 {
+				pp.Restarts = 1 + c.Rng.Intn(2)
+			}
+			if c.Case%50 == 7 {
+				// restart with the window across the identifier wrap
+				pp.Restarts = 1 + c.Rng.Intn(2)
+				pp.Budget = c.Rng.Intn(2)
+				for _, lvl := range pp.Levels {
+					pp.Prelude[lvl] = 0x4000 - 1 - c.Rng.Intn(pp.NPub/len(pp.Levels)+1)
+				}
+			}
 			ep, a, all := runPubWorkload(c, pp)
 			if a == nil {
 				return
@@ -167,8 +187,13 @@ func init() {
 			}
 			c.Count("max_in_flight_at_reconnect", inflight)
 			c.Count("resends_completed", resends)
+			c.Count("restarts", pp.Restarts)
+			if pp.Prelude[1]+pp.Prelude[2] > 0 {
+				c.Count("restarts_at_the_identifier_wrap", pp.Restarts)
+				mode += "+wrap"
+			}
 			if inflight >= 2 || conc > 1 {
-				c.Trigger(fmt.Sprintf("%s|%s|conns=%d|inflight=%d", mode, faultShape(ep.F), min(len(ep.W.Conns), 5), min(inflight, 6)))
+				c.Trigger(fmt.Sprintf("%s|%s|conns=%d|inflight=%d|restarts=%d", mode, faultShape(ep.F), min(len(ep.W.Conns), 5), min(inflight, 6), pp.Restarts))
 			}
 			var hooks []string
 			for _, p := range []string{"submit.saved", "connect.dialed", "connect.resent", "write.fail"} {
